@@ -122,7 +122,7 @@ def nontrivial(pid, case):
             return len(set(ln.get("c") for ln in par if any((p or {}).get("ops") for p in ln.get("obs", {}).get("req", []) or []))) >= 2
         if pid == "C11":
             ks2 = [ln.get("k") for ln, _ in case]
-            held = [i for i, (ln, _) in enumerate(case) if ln.get("k") == "sync" and ln.get("fault") in ("holdsnap", "holdbg")]
+            held = [i for i, (ln, _) in enumerate(case) if ln.get("k") == "sync" and ln.get("fault") in ("holdsnap", "holdbg", "holdread")]
             return bool(held) and "applylate" in ks2 and "snapcheck" in ks2 if hdr.get("profile", "snap11") != "rest" else "snapcheck" in ks2 or "patch" in ks2
         if pid == "C08":
             return "fault" in hdr
